@@ -137,6 +137,15 @@ func bodyMulti(c *hk.Ctx, prop string) {
 		detOf[h] = dets[i]
 	}
 	s.mesos.Latency = func(kind string) time.Duration { return time.Duration(c.F(4, "latency-"+kind)) * 3 * time.Millisecond }
+	if prop == "C04" && c.W(3, "slow-kill-calls") == 2 {
+		// KILL calls are network bound: other requests make progress while one is in flight
+		s.mesos.CallLatency = func(typ string) time.Duration {
+			if typ == "KILL" {
+				return time.Duration(c.W(3, "kill-call-ms")) * 100 * time.Millisecond
+			}
+			return 0
+		}
+	}
 
 	// ---- workflows: 1-3, over possibly overlapping host sets ----
 	nWf := 1
@@ -165,6 +174,9 @@ func bodyMulti(c *hk.Ctx, prop string) {
 					t.WantCpu = 64 // no agent has that much: creation fails at deployment, after its siblings were launched
 				}
 			}
+			if prop == "C04" && t.Critical && c.F(6, "start-transition-fails") == 5 {
+				t.OnEvent["START"] = "error-state" // START_ACTIVITY fails: the environment ends in ERROR, still holding its detectors
+			}
 			wf.Tasks = append(wf.Tasks, t)
 			m.specByClass[t.Class] = t
 			classes[t.Class] = yamlTaskClass(t)
@@ -175,6 +187,9 @@ func bodyMulti(c *hk.Ctx, prop string) {
 			wf.Tasks = append(wf.Tasks, t)
 			m.specByClass[t.Class] = t
 			classes[t.Class] = yamlTaskClass(t)
+		}
+		if prop == "C06" && c.W(4, "pending-call-hook") == 3 {
+			wf.CallHook = true
 		}
 		seen := map[string]bool{}
 		for _, t := range wf.Tasks {
@@ -414,6 +429,13 @@ func (m *multi) runOwnership() {
 				if c.W(6, "cleanup-now") == 5 {
 					m.cleanup()
 				}
+				if m.prop == "C04" && c.F(6, "reconnect") == 5 {
+					// the connection to the master drops and comes back: reconciliation answers for
+					// every task (no executor id in them)
+					c.Count("fault.c04.reconnect")
+					m.s.mesos.DropSubscription()
+					simrt.Sleep(3 * time.Second)
+				}
 				if m.prop == "C04" && c.W(5, "cleanup-by-id") == 4 {
 					// an operator cleaning up "the tasks on that host": ids taken from GetTasks
 					m.cleanupIds()
@@ -482,7 +504,42 @@ func (m *multi) checkObservation(o *obs) {
 	for eid, ds := range o.dets {
 		for _, d := range ds {
 			if other, dup := seen[d]; dup && other != eid {
-				m.viol("C04", "detector-exclusive", "detector-in-two-environments", "detector %s is part of two listed environments (%s in %s, %s in %s)", d, eid, o.envs[eid], other, o.envs[other])
+				// how did they get there? two creations racing (listed known finding: check and
+				// registration are not atomic), or one created while the other's teardown was
+				// already under way
+				sig := "detector-in-two-environments"
+				m.mu.Lock()
+				rec := map[string]*envRec{}
+				newInv := map[int]int{}
+				for _, e := range m.envs {
+					if e.ID != "" {
+						rec[e.ID] = e
+					}
+				}
+				newRet := map[int]int{}
+				for _, r := range m.sc.Requests {
+					if strings.HasPrefix(r.Op, "NEW") {
+						newInv[r.Env] = r.invoke
+						if r.done {
+							newRet[r.Env] = r.ret
+						}
+					}
+				}
+				for _, pair := range [][2]string{{eid, other}, {other, eid}} {
+					a, b := rec[pair[0]], rec[pair[1]]
+					if a == nil || b == nil {
+						continue
+					}
+					switch {
+					case a.destroyReqSeq != 0 && a.destroyReqSeq < newInv[b.Idx]:
+						sig = "detector-in-two-environments:created-during-teardown-of-the-holder"
+					case newRet[a.Idx] != 0 && newRet[a.Idx] < newInv[b.Idx] && a.destroyReqSeq == 0:
+						// a's creation had returned before b's was even requested: no race of two creations
+						sig = "detector-in-two-environments:created-while-the-holder-was-established"
+					}
+				}
+				m.mu.Unlock()
+				m.viol("C04", "detector-exclusive", sig, "detector %s is part of two listed environments (%s in %s, %s in %s)", d, eid, o.envs[eid], other, o.envs[other])
 			}
 			seen[d] = eid
 		}
@@ -631,6 +688,12 @@ func (m *multi) checkOwnershipHistory(final *obs) {
 		for id := range after.envs {
 			liveEnv[id] = true
 		}
+		if len(liveEnv) == 0 {
+			// every environment is gone: none of their hook calls may still be waiting to be awaited
+			if left := hk.BlockedSummary("core/workflow/callable.(*Call).Start"); len(left) > 0 {
+				m.viol("C06", "pending-calls-cancelled", "call-goroutine-left-after-destroy", "all environments are gone but %d hook call(s) started for them are still waiting to be awaited: %v", len(left), left)
+			}
+		}
 		for _, t := range m.s.mesos.AliveTasks() {
 			owner := after.owner[t.ID]
 			if owner != "" && liveEnv[owner] {
@@ -720,6 +783,14 @@ func (m *multi) runC03() {
 		}
 	}
 	m.observe()
+	if c.F(4, "reconnect-before-failure") == 3 {
+		// the connection to the master was lost and re-established some time before the failure:
+		// the reconciliation answers (no executor id in them) must not change how it is handled
+		c.Count("fault.c03.reconnect_before_failure")
+		m.s.mesos.DropSubscription()
+		simrt.Sleep(8 * time.Second)
+		m.sc.Notes = append(m.sc.Notes, "reconnection before the failure")
+	}
 	// victim and failure kind
 	vt := wf.Tasks[c.W(len(wf.Tasks), "victim")]
 	kinds := []string{"task-failed", "task-lost", "task-killed", "executor-lost", "agent-lost", "internal-error", "agent-lost-failure-event-only"} // a process exiting with status 0 (TASK_FINISHED) is not among the failures the statement lists
